@@ -1,12 +1,19 @@
 (** C09 — Object-store server keeps one version chain under concurrent clients.
 
-    Proved here (for all store states, schedules do not matter to them): the
-    mechanism the property rests on.  The full inductive invariant over all
-    interleavings ([GInv], stated in Proofs/CloudP.v) is NOT proved in this
-    development (see DESIGN.md): its statement is kept below, and every
-    generated schedule is checked against the model and against a direct audit
-    by the correspondence check. *)
-From TC Require Import Model.Cloud Proofs.CloudP.
+    Proved: an inductive invariant ([CInv], Proofs/CloudInvP.v) of the system
+    made of the object store and any number of client machines (add-version,
+    get-child-version, add-snapshot, get-snapshot), preserved by every single
+    object-store request of every client, by clients being dropped anywhere and
+    by requests that take effect and whose reply is lost -- hence true in every
+    state reachable by any schedule -- and its consequences: one accepted child
+    per parent, accepted versions stay on the chain, get-child-version serves
+    only the chain child with the submitted bytes (never a race loser), a
+    rejection names a version that has been the latest.  Also the mechanism
+    lemmas about single requests.  Cleanup is not part of this system (C10).
+    Assumption written into the system: an add-version call names as parent the
+    nil version or a version that has been [latest] (clients only learn version
+    ids from a server), and new version ids are fresh. *)
+From TC Require Import Model.Cloud Proofs.CloudP Proofs.CloudInvP.
 
 (** [latest] changes only by a compare-and-swap whose expected value is the
     current one; so a version is committed only by a successful swap. *)
@@ -54,11 +61,51 @@ Theorem C09_objects_change_only_by_put_and_delete : forall rank pagesz now st q,
   \/ (exists p c, q = QDelVer p c /\ o_vers (ostore_step rank pagesz now st q).2 = delete (p, c) (o_vers st)).
 Proof. exact vers_change. Qed.
 
-(** Statement kept visible, not proved: the invariant holds in every state
-    reachable by any schedule of any number of clients. *)
-Definition C09_invariant_every_schedule_statement : Prop :=
-  forall rank pagesz threshold (evs : list gev),
-    GInv (fold_left (gstep rank pagesz threshold) evs gsys0).
+(** The invariant holds in every state reachable by any schedule of any number
+    of clients, with drops and lost replies anywhere. *)
+Theorem C09_invariant_every_schedule : forall rank pagesz threshold (evs : list cev),
+  CInv (fold_left (cstep rank pagesz threshold) evs csys0).
+Proof. exact CInv_run. Qed.
+
+(** Two versions on the chain stored under the same parent are the same
+    version: at most one child per parent is ever accepted. *)
+Theorem C09_one_child_per_parent : forall rank pagesz threshold evs p c1 c2,
+  let s := fold_left (cstep rank pagesz threshold) evs csys0 in
+  c1 ∈ c_hist s -> c2 ∈ c_hist s ->
+  is_Some (o_vers (c_store s) !! (p, c1)) -> is_Some (o_vers (c_store s) !! (p, c2)) -> c1 = c2.
+Proof. exact one_child_per_parent. Qed.
+
+(** A version whose add-version call returned success is on the chain in every
+    later state. *)
+Theorem C09_accepted_stays_on_chain : forall rank pagesz threshold evs more pc c u,
+  (pc, CAddOk c u) ∈ c_results (fold_left (cstep rank pagesz threshold) evs csys0) ->
+  c ∈ c_hist (fold_left (cstep rank pagesz threshold) (evs ++ more) csys0).
+Proof. exact accepted_stays_on_chain. Qed.
+
+(** get-child-version returns only the chain child of the requested parent,
+    with the bytes submitted under that id; a version that lost the race is
+    never served. *)
+Theorem C09_served_is_chain_child : forall rank pagesz threshold evs pc c pl,
+  let s := fold_left (cstep rank pagesz threshold) evs csys0 in
+  (pc, CVersion c pl) ∈ c_results s ->
+  exists p k, pc = G3 p c /\ c_sub s !! c = Some (p, pl)
+              /\ c_hist s !! k = Some c
+              /\ (forall k', k = S k' -> c_hist s !! k' = Some p) /\ (k = 0%nat -> p = 0%N).
+Proof. exact served_is_chain_child. Qed.
+
+Theorem C09_expected_was_latest : forall rank pagesz threshold evs pc l,
+  (pc, CExpected l) ∈ c_results (fold_left (cstep rank pagesz threshold) evs csys0) ->
+  l = 0%N \/ l ∈ c_hist (fold_left (cstep rank pagesz threshold) evs csys0).
+Proof. exact expected_was_latest. Qed.
+
+(** history and results only grow *)
+Theorem C09_history_only_grows : forall rank pagesz threshold evs more,
+  c_hist (fold_left (cstep rank pagesz threshold) evs csys0)
+    `prefix_of` c_hist (fold_left (cstep rank pagesz threshold) (evs ++ more) csys0)
+  /\ (forall x, x ∈ c_results (fold_left (cstep rank pagesz threshold) evs csys0) ->
+                x ∈ c_results (fold_left (cstep rank pagesz threshold) (evs ++ more) csys0)).
+Proof. exact run_grows. Qed.
+
 
 Print Assumptions C09_latest_changes_only_by_cas.
 Print Assumptions C09_one_swap_per_parent.
@@ -67,3 +114,9 @@ Print Assumptions C09_parent_is_latest.
 Print Assumptions C09_ok_only_after_swap.
 Print Assumptions C09_swap_outcomes.
 Print Assumptions C09_objects_change_only_by_put_and_delete.
+Print Assumptions C09_invariant_every_schedule.
+Print Assumptions C09_one_child_per_parent.
+Print Assumptions C09_accepted_stays_on_chain.
+Print Assumptions C09_served_is_chain_child.
+Print Assumptions C09_expected_was_latest.
+Print Assumptions C09_history_only_grows.
